@@ -564,3 +564,25 @@ Definition no_default_clashb {blob} (E : env blob) (p : phys blob) : bool :=
         || str_eqb cx cy
     | _, _ => true
     end) L) L.
+
+(** ---- causes of refusal, as predicates on the physical package (C16) ---- *)
+
+Definition cause_no_ct_item {blob} (p : phys blob) : Prop := lookup ct_uri p = None.
+Definition cause_ct_undecodable {blob} (E : env blob) (p : phys blob) : Prop :=
+  exists cb, lookup ct_uri p = Some cb /\ dec_ct E cb = None.
+Definition cause_rels_undecodable {blob} (E : env blob) (p : phys blob) : Prop :=
+  exists n, In n (xml_rels_names E p) /\ rels_for E p n = None.
+(** a member the relationship graph reaches has no content type *)
+Definition cause_untyped_part {blob} (E : env blob) (p : phys blob) : Prop :=
+  exists n, In n (part_names E p) /\ ct_in E p n = Err KeyErr.
+(** a part typed as one of the XML part classes does not parse *)
+Definition cause_xml_unparseable {blob} (E : env blob) (p : phys blob) : Prop :=
+  exists n ct b, In n (part_names E p) /\ ct_in E p n = Ok ct /\ lookup n p = Some b /\
+                 is_xml_ct E ct = true /\ reser E b = None.
+(** a relationship whose TargetMode is neither Internal nor External points nowhere *)
+Definition cause_dangling_other_mode {blob} (E : env blob) (p : phys blob) : Prop :=
+  exists n r, In n (root :: part_names E p) /\ In r (rels_or_nil E p n) /\ r_mode r = MOther /\
+              mem_str (resolve (baseURI n) (r_target r)) (part_names E p) = false.
+
+Definition od_rels {blob} (E : env blob) (k : pkg blob) : list lrel :=
+  filter (fun r => str_eqb (l_type r) (rt_od E)) (k_rels k).
